@@ -128,6 +128,7 @@ def hover (j : Json) : Json := Id.run do
   let gt := jget j "gt"
   let req := jnat j "req"
   let doc := journalOf (jget j "docj")
+  let lns := HL.Text.lines (jstr j "doct").toList
   let ws := resolvedOf (jget j "wsres")
   let res := resolvedOf (jget j "res")
   let qs := (jarr j "qs").toList
@@ -137,7 +138,7 @@ def hover (j : Json) : Json := Id.run do
     let p := match jget q "p" with
       | .arr a => (⟨asNat a[0]!, asNat a[1]!⟩ : LspPos)
       | _ => ⟨0, 0⟩
-    match Hover.hover ws res doc p with
+    match Hover.hover ws res doc lns p with
     | some h => figuresJ h
     | none => Json.null
   -- ground truth
